@@ -65,6 +65,23 @@ Copy(h, g) ==        \* slot h := copy of the dl object or symbol in slot g
   /\ h \in 1..NH /\ g \in 1..NH /\ holder[h].kind = "none" /\ holder[g].kind # "none"
   /\ holder' = [holder EXCEPT ![h] = holder[g]] /\ Ok("Copy", <<h, g>>, "") /\ UNCHANGED <<env, inst>>
 
+(* assignment between holders of the same kind: the target lets go of what it held (closing it if it was the  *)
+(* last holder) and holds what the source holds; after a move assignment the source object is destroyed at once  *)
+AssignCopy(h, g) ==
+  /\ h \in 1..NH /\ g \in 1..NH /\ h # g /\ holder[h].kind # "none" /\ holder[h].kind = holder[g].kind
+  /\ LET hs == [holder EXCEPT ![h] = holder[g]] IN
+       /\ inst' = IF holder[h].inst # holder[g].inst /\ { x \in 1..NH : x # h /\ holder[x].inst = holder[h].inst } = {}
+                  THEN [inst EXCEPT ![holder[h].inst].closes = @ + 1] ELSE inst
+       /\ holder' = hs
+  /\ Ok("AssignCopy", <<h, g>>, "") /\ UNCHANGED env
+
+AssignMove(h, g) ==
+  /\ h \in 1..NH /\ g \in 1..NH /\ h # g /\ holder[h].kind # "none" /\ holder[h].kind = holder[g].kind
+  /\ inst' = IF holder[h].inst # holder[g].inst /\ { x \in 1..NH : x # h /\ holder[x].inst = holder[h].inst } = {}
+             THEN [inst EXCEPT ![holder[h].inst].closes = @ + 1] ELSE inst
+  /\ holder' = [holder EXCEPT ![h] = holder[g], ![g] = None]
+  /\ Ok("AssignMove", <<h, g>>, "") /\ UNCHANGED env
+
 Call(s) ==           \* calling a symbol: the library must still be mapped
   /\ s \in 1..NH /\ holder[s].kind = "sym"
   /\ Ok("Call", <<s>>, "cos") /\ UNCHANGED <<env, holder, inst>>
@@ -77,7 +94,7 @@ Destroy(h) ==
 Next ==
   \/ \E n \in EnvNames : (\E v \in EnvVals : SetEnv(n, v)) \/ UnsetEnv(n) \/ GetNoDefault(n) \/ \E d \in Defaults : Get(n, d)
   \/ \E h \in 1..NH : (\E lib \in Libs \cup {"missing"} : Open(h, lib)) \/ Destroy(h) \/ Call(h)
-                      \/ \E g \in 1..NH : Copy(h, g) \/ \E p \in BOOLEAN : Load(h, g, p)
+                      \/ \E g \in 1..NH : Copy(h, g) \/ AssignCopy(h, g) \/ AssignMove(h, g) \/ \E p \in BOOLEAN : Load(h, g, p)
 Spec == Init /\ [][Next]_vars
 
 ------------------------------------------------------------------------------------------------------
